@@ -12,3 +12,5 @@ mod xstubs;
 mod build;
 #[cfg(kani)]
 mod c05;
+#[cfg(kani)]
+mod c31;
